@@ -661,6 +661,10 @@ func TestHashHelper(t *testing.T) {
 	for _, grp := range strings.Split(order, "|") {
 		if grp == "R" {
 			cache.GobTypesHashReset()
+			// the harness's own value types belong to the registered set of every helper process (package
+			// init): an application that starts over registers what it needs again
+			cache.GobRegister(GV{}, GW{}, &GVInner{}, Tok{})
+			cache.GobRegister(sliceVal{}, mapVal{}, boxVal{})
 
 			continue
 		}
